@@ -116,12 +116,12 @@ def case_batches(ctx, tag, big=True):
             yield cur
 
 
-def run_batch(batch, tag):
-    """run write_robots for a batch. An item: case, src, res (raw worker result), games (dict read back or
-    None), text, model (bool: also evaluate the Coq model)"""
-    res = impl.run_cases([wr_job(c) for _, c, _ in batch], limit=60, tag=tag + "w")
+def run_batch(batch, tag, jobs=16):
+    """run write_robots for a batch of (src, case, model_flag, ...). An item: case, src, res (raw worker result),
+    games (dict read back or None), text, model (bool: also evaluate the Coq model)"""
+    res = impl.run_cases([wr_job(e[1]) for e in batch], limit=60, tag=tag + "w", jobs=jobs)
     items = []
-    for (src, c, m), r in zip(batch, res):
+    for (src, c, m), r in zip([e[:3] for e in batch], res):
         games = None
         if "ok" in r:
             try:
@@ -243,7 +243,7 @@ class FloatTable:
             raise NotRepresentable(x)
         key = fdec(x)
         if key not in self.names:
-            self.names[key] = "f%d" % len(self.names)
+            self.names[key] = "f%d%s%d" % (key[0], "n" if key[1] < 0 else "p", abs(key[1]))
         return self.names[key]
 
     def defs(self):
@@ -300,28 +300,35 @@ def cboard_case(c, games, ft):
         rows_n(c["loose"]), ft.ref(c["ptb"]), ft.ref(c["prb"]), ft.ref(c["plb"]), clist(named))
 
 
-def correspondence(ctx, items, tag, chunk=250):
-    """model's write_robots (instance F, vm_compute) vs the dictionary read back, for every item flagged
-    model=True. Records ctx.corr_break for every mismatch."""
-    ft = FloatTable()
-    terms, meta = [], []
-    for it in items:
+def render(it, ft):
+    """(term, None) or (None, complaint) for one item with games"""
+    try:
+        return cboard_case(it["case"], it["games"], ft), None
+    except NotRepresentable as e:
+        return None, "file content outside the typed game universe (%s)" % (e,)
+
+
+def correspondence_terms(ctx, lights, names, tag, chunk=250):
+    """lights: items flagged model=True carrying 'term' (or 'term_err', or no games at all). Evaluates
+    Model/Board.v's write_robots (instance F, vm_compute) against the embedded dictionary read back and
+    records ctx.corr_break for every mismatch."""
+    pairs = []
+    for it in lights:
         if not it["model"]:
             continue
-        if it["games"] is None:
+        if not it["has_games"]:
             ctx.corr_break("the implementation produced no readable file where the model produces three games",
-                           public(it["case"]), impl={k: v for k, v in it["res"].items() if k not in ("text", "ok", "read")})
-            continue
-        try:
-            terms.append(cboard_case(it["case"], it["games"], ft))
-            meta.append(it)
-        except NotRepresentable as e:
-            ctx.corr_break("file content outside the typed game universe (%s)" % (e,), public(it["case"]))
-    # bigger games get smaller chunks
-    small = [(t, m) for t, m in zip(terms, meta) if m["case"]["L"] * m["case"]["W"] <= 4]
-    large = [(t, m) for t, m in zip(terms, meta) if m["case"]["L"] * m["case"]["W"] > 4]
+                           public(it["case"]), impl=it.get("res"))
+        elif it.get("term") is None:
+            ctx.corr_break(it.get("term_err") or "not representable", public(it["case"]))
+        else:
+            pairs.append((it["term"], it))
+    small = [p for p in pairs if p[1]["case"]["L"] * p[1]["case"]["W"] <= 4]
+    large = [p for p in pairs if p[1]["case"]["L"] * p[1]["case"]["W"] > 4]
     chunks = coqrun.chunked(small, chunk) + coqrun.chunked(large, 12)
     flat = [m for ch in chunks for _, m in ch]
+    ft = FloatTable()
+    ft.names = names
     body = lambda l: ("Definition cases : list board_case := %s.\n"
                       "Eval vm_compute in (run_board_cases cases).") % l
     bad, errs = coqrun.eval_case_files(tag, HDR + ft.defs(), [[t for t, _ in ch] for ch in chunks], body)
@@ -333,6 +340,78 @@ def correspondence(ctx, items, tag, chunk=250):
     for e in errs:
         ctx.harness_errors.append("coqc failed on %s: %s" % (e[0], e[2][-500:]))
     return len(flat)
+
+
+def lighten(it, check, ft, keep):
+    """what the main process needs of an item: the verdict of the property's own predicate (check), the Coq
+    term for the correspondence, and the games only when asked for"""
+    light = dict(case=it["case"], src=it["src"], model=it["model"], has_games=it["games"] is not None,
+                 res={k: v for k, v in it["res"].items() if k not in ("text", "ok", "read")},
+                 params=it.get("params"))
+    if it["games"] is not None:
+        light["problems"] = check((it["case"], it["games"]))
+        if it["model"]:
+            light["term"], light["term_err"] = render(it, ft)
+        if keep:
+            light["games"] = it["games"]
+            light["text"] = it.get("text")
+    return light
+
+
+def _slice_worker(arg):
+    sl, tag, checker = arg
+    import importlib
+    check = importlib.import_module("props." + checker).item_check
+    ft = FloatTable()
+    items = run_batch(sl, tag, jobs=1)
+    return [lighten(it, check, ft, e[3] if len(e) > 3 else False) for it, e in zip(items, sl)], ft.names
+
+
+_pool = None
+
+
+def pool():
+    global _pool
+    if _pool is None:
+        from concurrent.futures import ProcessPoolExecutor
+        _pool = ProcessPoolExecutor(max_workers=16)
+    return _pool
+
+
+def shutdown():
+    global _pool
+    if _pool is not None:
+        _pool.shutdown()
+        _pool = None
+
+
+def process_batch(ctx, batch, tag, checker):
+    """batch: list of (src, case, model_flag, keep_games_flag). Runs the implementation, the property's
+    predicate and the Coq term rendering in parallel worker processes, then the Coq correspondence.
+    Returns the light items in order."""
+    if not batch:
+        return []
+    nsl = 1 if len(batch) < 64 else 48
+    size = (len(batch) + nsl - 1) // nsl
+    slices = [batch[k:k + size] for k in range(0, len(batch), size)]
+    args = [(sl, "%s_%d" % (tag, k), checker) for k, sl in enumerate(slices)]
+    outs = [_slice_worker(a) for a in args] if nsl == 1 else list(pool().map(_slice_worker, args))
+    lights, names = [], {}
+    for ls, nm in outs:
+        lights.extend(ls)
+        names.update(nm)
+    correspondence_terms(ctx, lights, names, tag)
+    return lights
+
+
+def process_items(ctx, items, tag, checker, keep=True):
+    """the same for items that were already run (command line / manual entry)"""
+    import importlib
+    check = importlib.import_module("props." + checker).item_check
+    ft = FloatTable()
+    lights = [lighten(it, check, ft, keep) for it in items]
+    correspondence_terms(ctx, lights, ft.names, tag)
+    return lights
 
 
 def well_shaped(games):
